@@ -14,9 +14,11 @@
     ordinary nat field.  TL2 does not use nat parameters at all (array lengths are on the wire).
 
     The writer is modelled in one pass: the body of an object is built first and prefixed by
-    its size (this is what internal/pure/onthefly FinishSize does; the generated code computes
-    the same sizes in CalculateLayout and consumes them in InternalWriteTL2 -- the two-pass
-    version and its agreement with [enc2] are in Tl2Layout.v). *)
+    its size (this is what internal/pure/onthefly FinishSize does).  The generated code computes
+    the same sizes in a first pass (CalculateLayout) and consumes them in the second
+    (InternalWriteTL2); the two passes are NOT modelled separately -- their disagreement shows as
+    a Go panic ("mismatch between calculate and write", "did not consume all size data"), which
+    the checks treat as a violation. *)
 From Coq Require Export List NArith ZArith Bool.
 From TLV Require Export Prim.PrimModel Tl1.Tl1Model.
 Export ListNotations.
